@@ -167,7 +167,8 @@ func (b *listParser) Continue(node ast.Node, reader text.Reader, pc Context) Sta
 	line, _ := reader.PeekLine()
 	if util.IsBlank(line) {
 		if node.LastChild().ChildCount() == 0 {
-			pc.Set(emptyListItemWithBlankLines, listItemFlagValue)
+			// remember which list it is: the flag must not leak into enclosing lists
+			pc.Set(emptyListItemWithBlankLines, node)
 		}
 		return Continue | HasChildren
 	}
@@ -238,7 +239,7 @@ func (b *listParser) Continue(node ast.Node, reader text.Reader, pc Context) Sta
 	//   foo
 	//
 	// -> 1 list with 1 blank items and 1 paragraph
-	if pc.Get(emptyListItemWithBlankLines) != nil {
+	if pc.Get(emptyListItemWithBlankLines) == node {
 		return Close
 	}
 	return Continue | HasChildren
